@@ -113,6 +113,12 @@ pub fn gen_env(r: &mut Rng) -> EnvDesc {
         if f.beh != "ifthen" && f.beh != "fail" && r.chance(1, 4) { f.beh = (*r.pick(&["first", "last", "cnt", "arr", "k1", "k2"])).to_string(); }
         if f.beh == "ifthen" && r.chance(1, 8) { f.pure = false; }
         d.fns.push(f); } }
+    // a registration HISTORY: a name registered before is registered again (other spelling, the opposite purity, sometimes another arity and
+    // function) - the environment answers for the registration made last, with nothing carried over from the one it replaces
+    if !d.fns.is_empty() && r.chance(1, 3) { for _ in 0..1 + r.below(2) {
+        let mut f = r.pick(&d.fns).clone(); f.name = respell(r, &f.name); f.pure = !f.pure;
+        if f.beh != "ifthen" && r.chance(1, 3) { f.beh = (*r.pick(&["first", "last", "cnt", "arr", "k1", "k2"])).to_string(); if r.chance(1, 2) { f.kind = 'V'; } }
+        d.fns.push(f); } }
     d
 }
 
